@@ -274,7 +274,7 @@ static void run_zone(Ctx& c, vt::Rng& r, bool thorough, const std::vector<int64_
   }
   for (int64_t t : spec_tr) {
     for (int d = -2; d <= 2; ++d) inst.push_back(sat_add(t, d));
-    if (t > kMin + 10 && t < kMax - 10) {
+    if (t > kMin + 10 && t < kMax - 1) {
       Tr x{t, convert(tp(t - 1), c.tz) + 1, convert(tp(t), c.tz)};
       civil_around(&civ, x);
       if (x.from == x.to) {  // the library sees no change here: probe the day around it as well
@@ -540,6 +540,22 @@ int main(int argc, char** argv) {
     total += c.events;
     shard_events[sh] += c.events + 50;
     { std::lock_guard<std::mutex> l(g_mu); g_files.erase(key); }
+  }
+  // the library's built-in fixed-offset zones (no zone data): +-24 h, sub-minute, UTC
+  if (fam.find("fixed") != std::string::npos) {
+    for (long off : {86400L, -86400L, 86399L, -86399L, 0L, 19815L, -30L, 43200L, 90000L}) {
+      int sh = 0;
+      for (int i = 1; i < nsh; ++i) if (shard_events[i] < shard_events[sh]) sh = i;
+      ++idx;
+      Ctx c{files[sh], ++zcount[sh], fixed_time_zone(seconds(off)), 0};
+      emit(c, "{\"e\":\"LoadFixed\",\"z\":" + std::to_string(c.z) + ",\"name\":\"fixed\",\"off\":" + std::to_string(off) + ",\"ok\":1}");
+      vt::Rng r(seed * 1000003 + (uint64_t)idx);
+      int pub = 0;
+      VT_GUARD(pub, run_zone(c, r, thorough, std::vector<int64_t>(), true));
+      if (pub) emit(c, "{\"e\":\"PanelUB\",\"z\":" + std::to_string(c.z) + ",\"ub\":1}");
+      total += c.events;
+      shard_events[sh] += c.events + 50;
+    }
   }
   for (FILE* f : files) fclose(f);
   fprintf(stderr, "drv_zone: %d zones (%d loaded), %llu events\n", idx, loaded, (unsigned long long)total);
